@@ -96,6 +96,85 @@ def run_stream(stream, max_iv):
   return None
 
 
+RULES = [('<env>.requests.total', 'sum', '<env>.requests.total'),        # feeds an aggregate with the input's own name
+         ('all.requests.total', 'sum', '*.requests.total'),
+         ('<env>.requests.all', 'avg', '<env>.requests.<kind>'),
+         ('deep.<env>', 'max', '<env>.<<rest>>'),
+         ('prod.requests.total', 'min', 'prod.requests.*')]
+NAMES = ['prod.requests.total', 'dev.requests.total', 'prod.requests.errors', 'prod.cpu', 'unmatched', 'all.requests.total']
+
+
+def ref_aggregate(rule, name):
+  """independent reading of a rule: whole-name match, <f> one dot-free segment, <<f>> anything, * within a segment"""
+  import re
+  (out, method, inp) = rule
+  parts = []
+  for seg in inp.split('.'):
+    if seg.startswith('<<') and seg.endswith('>>'):
+      parts.append('(?P<%s>.+?)' % seg[2:-2])
+    elif seg.startswith('<') and seg.endswith('>'):
+      parts.append('(?P<%s>[^.]+)' % seg[1:-1])
+    elif seg == '*':
+      parts.append('[^.]+')
+    else:
+      parts.append(re.escape(seg).replace('\\*', '[^.]*'))
+  m = re.fullmatch('\\.'.join(parts), name)
+  if not m:
+    return None
+  res = out
+  for k, v in m.groupdict().items():
+    res = res.replace('<%s>' % k, v)
+  return res
+
+
+def sweep_processor():
+  """process() on the real AggregationProcessor: every ordered selection of 1..3 of 5 rules x
+  FORWARD_ALL on/off x name-lookup cache on/off x 6 names: every matching rule's buffer gets the
+  datapoint once, and the raw datapoint is forwarded exactly once iff FORWARD_ALL is on and no
+  matching rule produced an aggregate of the same name"""
+  from carbon.aggregator.rules import RuleManager, AggregationRule
+  from carbon.aggregator.processor import AggregationProcessor
+  import carbon.aggregator.rules as R
+  evals = 0
+  fails = []
+  settings['LOG_AGGREGATOR_MISSES'] = False
+  for cache_on in (True, False):
+    settings['CACHE_METRIC_NAMES_MAX'] = 1000 if cache_on else 0
+    settings['CACHE_METRIC_NAMES_TTL'] = 0
+    for n in (1, 2, 3):
+      for sel in itertools.permutations(range(len(RULES)), n):
+        rules = [RULES[i] for i in sel]
+        for fwd in (True, False):
+          settings['FORWARD_ALL'] = fwd
+          RuleManager.rules = [AggregationRule(inp, out, method, 10) for (out, method, inp) in rules]
+          for name in NAMES:
+            for rep in (0, 1):          # second pass exercises the memo
+              B.BufferManager.buffers.clear()
+              fed = []
+              real_input = B.MetricBuffer.input
+
+              def rec(self, dp, _fed=fed):
+                _fed.append((self.metric_path, dp))
+              B.MetricBuffer.input = rec
+              try:
+                out = list(AggregationProcessor().process(name, (1000, 1.5)))
+              finally:
+                B.MetricBuffer.input = real_input
+              evals += 1
+              aggs = [a for a in (ref_aggregate(r, name) for r in rules) if a is not None]
+              want_fed = [(a, (1000, 1.5)) for a in aggs]
+              want_out = [(name, (1000, 1.5))] if (fwd and name not in aggs) else []
+              if fed != want_fed:
+                fails.append({'id': 'processor-feeds-every-matching-rule', 'rules': rules, 'FORWARD_ALL': fwd, 'name': name,
+                              'cache': cache_on, 'fed': repr(fed), 'expected': repr(want_fed)})
+              if out != want_out:
+                fails.append({'id': 'processor-forwarding', 'rules': rules, 'FORWARD_ALL': fwd, 'name': name, 'cache': cache_on,
+                              'forwarded': repr(out), 'expected': repr(want_out)})
+              if len(fails) >= 2:
+                return evals, fails
+  return evals, fails
+
+
 def main():
   ap = argparse.ArgumentParser()
   ap.add_argument('--len', type=int, default=6)
@@ -118,7 +197,10 @@ def main():
         break
     if len(fails) >= 2:
       break
-  print('BOUNDED-RESULT ' + json.dumps({'evaluations': evals, 'distinct_cases': evals, 'failures': fails[:3], 'max_len': a.len}))
+  pe, pf = sweep_processor()
+  evals += pe
+  fails += pf
+  print('BOUNDED-RESULT ' + json.dumps({'evaluations': evals, 'distinct_cases': evals, 'failures': fails[:4], 'max_len': a.len}))
 
 
 if __name__ == '__main__':
